@@ -41,24 +41,28 @@ Record st := mkSt {
   owned : option Z;            (* state::_value_storage *)
   ext : Z;                     (* the caller's variable an lvalue call points to *)
   tab : list (option lis);     (* listener id -> script parameters / progress *)
-  queue : list (nat * bool)    (* coro_queue of the thread, front first; (id, ready): ready = resumed from the
+  queue : list (nat * bool);   (* coro_queue of the thread, front first; (id, ready): ready = resumed from the
                                   emitter and not yet run; not ready = re-queued by its own co_await pause() *)
+  held : list (list nat)       (* suspend points returned by the collector that the driver keeps in variables
+                                  (neither discarded nor awaited yet), oldest first *)
 }.
 
-Definition st0 (coro vd : bool) : st := mkSt coro vd 1 [] VNull None 0 [] [].
+Definition st0 (coro vd : bool) : st := mkSt coro vd 1 [] VNull None 0 [] [] [].
 
 Definition alive (s : st) : bool := negb (Nat.eqb (strong s) 0).
 
 Definition set_chain (s : st) (c : list (nat * bool)) : st :=
-  mkSt (m_coro s) (m_void s) (strong s) c (cur s) (owned s) (ext s) (tab s) (queue s).
+  mkSt (m_coro s) (m_void s) (strong s) c (cur s) (owned s) (ext s) (tab s) (queue s) (held s).
 Definition set_queue (s : st) (q : list (nat * bool)) : st :=
-  mkSt (m_coro s) (m_void s) (strong s) (chain s) (cur s) (owned s) (ext s) (tab s) q.
+  mkSt (m_coro s) (m_void s) (strong s) (chain s) (cur s) (owned s) (ext s) (tab s) q (held s).
 Definition set_tab (s : st) (t : list (option lis)) : st :=
-  mkSt (m_coro s) (m_void s) (strong s) (chain s) (cur s) (owned s) (ext s) t (queue s).
+  mkSt (m_coro s) (m_void s) (strong s) (chain s) (cur s) (owned s) (ext s) t (queue s) (held s).
 Definition set_strong (s : st) (k : nat) : st :=
-  mkSt (m_coro s) (m_void s) k (chain s) (cur s) (owned s) (ext s) (tab s) (queue s).
+  mkSt (m_coro s) (m_void s) k (chain s) (cur s) (owned s) (ext s) (tab s) (queue s) (held s).
 Definition set_val (s : st) (p : vptr) (o : option Z) (x : Z) : st :=
-  mkSt (m_coro s) (m_void s) (strong s) (chain s) p o x (tab s) (queue s).
+  mkSt (m_coro s) (m_void s) (strong s) (chain s) p o x (tab s) (queue s) (held s).
+Definition set_held (s : st) (h : list (list nat)) : st :=
+  mkSt (m_coro s) (m_void s) (strong s) (chain s) (cur s) (owned s) (ext s) (tab s) (queue s) h.
 
 Definition getl (s : st) (i : nat) : lis := match get (tab s) i with Some l => l | None => lis0 end.
 Definition setl (s : st) (i : nat) (l : lis) : st := set_tab s (put (tab s) i (Some l)).
@@ -185,6 +189,12 @@ Inductive op :=
 | OCopy
 | ODrop
 | OPause
+| OEmitHold (kind : nat) (v : Z)   (* call the collector and keep the returned suspend point in a variable *)
+| ORelease                         (* the oldest kept suspend point is destroyed *)
+| OAwaitHeld                       (* the oldest kept suspend point is co_awaited (driver is a coroutine) *)
+| OHookUp (i limit : nat) (pause : bool) (retry : nat) (keep : bool)
+    (* first op of a case only: listener i awaits signal<T>::hook_up(fn) (signal.h:324-386): the first await creates the
+       state, subscribes, passes a collector to fn, which keeps it as the driver's handle (keep) or drops it *)
 | OBad.
 
 (* observation of one op: status (0 ok / 1 rejected), size of the returned suspend point,
@@ -195,7 +205,7 @@ Definition rejected : obs := mkObs 1 0 0 0 [].
 Definition is_free (e : ev) : bool := match e with EFree _ => true | _ => false end.
 Definition frees (l : list ev) : Z := zlen (filter is_free l).
 
-Definition step (s : st) (x : op) : st * obs :=
+Definition step0 (s : st) (x : op) : st * obs :=
   match x with
   | OSpawn i limit pause retry =>
       match get (tab s) i with
@@ -239,7 +249,39 @@ Definition step (s : st) (x : op) : st * obs :=
       if negb (m_coro s) then (s, rejected) else
       let '(s1, e) := drive false (queue s) (set_queue s []) in
       (s1, mkObs 0 0 0 (frees e) e)
+  | OEmitHold kind v =>
+      if negb (alive s) || (m_void s && negb (Nat.eqb kind 0)) || Nat.ltb 2 kind then (s, rejected) else
+      let s1 := if Nat.eqb kind 2 then set_val s VExt (owned s) v else set_val s VOwned (Some v) (ext s) in
+      let '(s2, e1, sp) := notify s1 in
+      (set_held s2 (held s2 ++ [sp]), mkObs 0 (zlen sp) 0 (frees e1) e1)
+  | ORelease =>
+      match held s with
+      | [] => (s, rejected)
+      | sp :: rest =>
+          let '(s1, e) := dispose false sp (set_held s rest) in (s1, mkObs 0 0 0 (frees e) e)
+      end
+  | OAwaitHeld =>
+      if negb (m_coro s) then (s, rejected) else
+      match held s with
+      | [] => (s, rejected)
+      | sp :: rest =>
+          let '(s1, e) := dispose true sp (set_held s rest) in (s1, mkObs 0 0 0 (frees e) e)
+      end
+  | OHookUp _ _ _ _ _ => (s, rejected)
   | OBad => (s, rejected)
+  end.
+
+(* hook_up_emitter::await_suspend (signal.h:331-339): `signal s; subscribe; fn(s.get_collector());` and then `s` dies.
+   With the collector kept this is the subscription of listener i to a state whose only handle is the driver's;
+   with the collector dropped the state dies at the end of await_suspend, with i already in the chain. *)
+Definition step (s : st) (x : op) : st * obs :=
+  match x with
+  | OHookUp i limit pause retry keep =>
+      let '(s1, o1) := step0 s (OSpawn i limit pause retry) in
+      if keep || negb (o_st o1 =? 0) then (s1, o1) else
+      let '(s2, o2) := step0 s1 ODrop in
+      (s2, mkObs 0 0 0 (o_del o2) (o_ev o1 ++ o_ev o2))
+  | _ => step0 s x
   end.
 
 Fixpoint run_from (s : st) (l : list op) : list obs * st :=
@@ -262,8 +304,22 @@ Definition decode (l : list Z) : op :=
   | [3] => OCopy
   | [4] => ODrop
   | [5] => OPause
+  | [6; k; v] => if inr 0 2 k && inr (-100000) 100000 v then OEmitHold (Z.to_nat k) v else OBad
+  | [7] => ORelease
+  | [8] => OAwaitHeld
   | _ => OBad
   end.
+
+(* hook-up is only meaningful on the untouched initial state: accepted as the first op of a case only *)
+Definition decode_first (l : list Z) : op :=
+  match l with
+  | [9; i; lim; p; r; k] =>
+      if inr 0 63 i && inr 0 9 lim && inr 0 1 p && inr 0 3 r && inr 0 1 k
+      then OHookUp (Z.to_nat i) (Z.to_nat lim) (p =? 1) (Z.to_nat r) (k =? 1) else OBad
+  | _ => decode l
+  end.
+Definition decode_all (ops : list (list Z)) : list op :=
+  match ops with [] => [] | h :: t => decode_first h :: map decode t end.
 
 Definition zn (k : nat) : Z := Z.of_nat k.
 
@@ -282,7 +338,7 @@ Definition encode_obs (o : obs) : list Z :=
   o_st o :: o_ret o :: o_new o :: o_del o :: flat_map encode_ev (o_ev o).
 
 Definition sg_run (coro vd : bool) (ops : list (list Z)) : list (list Z) :=
-  map encode_obs (fst (run_from (st0 coro vd) (map decode ops))).
+  map encode_obs (fst (run_from (st0 coro vd) (decode_all ops))).
 
 (* ================================================================================================
    Decidable form of C15 over an observed trace (run on the implementation's output).
@@ -315,14 +371,17 @@ Record ost := mkOst {
   os_strong : nat;
   os_tab : list (option orec);
   os_pend : option nat;       (* Some i: the next event must be listener i's *)
-  os_bal : Z                  (* news - deletes so far *)
+  os_bal : Z;                 (* news - deletes so far *)
+  os_held : nat               (* suspend points the driver still keeps *)
 }.
 
 Definition oget (t : list (option orec)) (i : nat) : option orec := get t i.
 Definition oput (t : list (option orec)) (i : nat) (r : orec) := put t i (Some r).
 Definition with_stat (r : orec) (x : lstat) : orec := mkO (oc_cb r) (oc_par r) x (oc_cnt r) (oc_retry r).
 Definition o_set (o : ost) (k : nat) (t : list (option orec)) (p : option nat) : ost :=
-  mkOst (os_coro o) (os_void o) (os_lax o) k t p (os_bal o).
+  mkOst (os_coro o) (os_void o) (os_lax o) k t p (os_bal o) (os_held o).
+Definition o_held (o : ost) (h : nat) : ost :=
+  mkOst (os_coro o) (os_void o) (os_lax o) (os_strong o) (os_tab o) (os_pend o) (os_bal o) h.
 
 Definition ev_id (e : ev) : nat :=
   match e with EAwait i | ERecv i _ | ECancel i _ | EFin i | ECall i _ | EFree i | ETerm i => i end.
@@ -457,6 +516,10 @@ Definition o_valid (o : ost) (x : op) : bool :=
   | OCopy => alive
   | ODrop => alive
   | OPause => os_coro o
+  | OEmitHold kind _ => negb (negb alive || (os_void o && negb (Nat.eqb kind 0)) || Nat.ltb 2 kind)
+  | ORelease => negb (Nat.eqb (os_held o) 0)
+  | OAwaitHeld => os_coro o && negb (Nat.eqb (os_held o) 0)
+  | OHookUp _ _ _ _ _ => true        (* decode_all lets it through as the first op only *)
   | OBad => false
   end.
 
@@ -467,7 +530,7 @@ Definition o_step (o : ost) (x : op) (line : list Z) : option ost :=
       match decode_evs (S (length rest)) rest with
       | None => None
       | Some evs =>
-          let o := mkOst (os_coro o) (os_void o) (os_lax o) (os_strong o) (os_tab o) (os_pend o) (os_bal o + nw - dl) in
+          let o := mkOst (os_coro o) (os_void o) (os_lax o) (os_strong o) (os_tab o) (os_pend o) (os_bal o + nw - dl) (os_held o) in
           let alive := negb (Nat.eqb (os_strong o) 0) in
           (* strict: every pending delivery / cancel must have happened when the op ends *)
           let finish (o2 : option ost) (strict : bool) : option ost :=
@@ -476,7 +539,7 @@ Definition o_step (o : ost) (x : op) (line : list Z) : option ost :=
             | Some o2 =>
                 if (dl =? zlen (filter is_free evs))
                    && match os_pend o2 with None => true | Some _ => false end
-                   && none_owed (negb strict) (os_tab o2) then Some o2 else None
+                   && none_owed (negb (strict && Nat.eqb (os_held o2) 0)) (os_tab o2) then Some o2 else None
             end in
           if negb (o_valid o x) then
             (* must be rejected, and a rejected op has no effect at all *)
@@ -523,6 +586,30 @@ Definition o_step (o : ost) (x : op) (line : list Z) : option ost :=
               end
           | OPause =>
               if (nw =? 0) && (ret =? 0) then finish (o_events o evs) true else None
+          | OEmitHold kind v =>
+              if negb (nw =? 0) then None else
+              let w := if os_void o then 0 else v in
+              if negb (ret =? zlen (filter waiting_co (os_tab o))) then None else
+              let o1 := o_held (o_set o (os_strong o) (owe (os_lax o) (LOwed w) (os_tab o)) None) (S (os_held o)) in
+              finish (o_events o1 evs) false
+          | ORelease =>
+              if (nw =? 0) && (ret =? 0) then finish (o_events (o_held o (Nat.pred (os_held o))) evs) (negb (os_coro o)) else None
+          | OAwaitHeld =>
+              (* an empty suspend point does not suspend the driver: what is queued stays queued *)
+              if (nw =? 0) && (ret =? 0) then finish (o_events (o_held o (Nat.pred (os_held o))) evs) false else None
+          | OHookUp i limit pause retry keep =>
+              if negb ((nw =? 0) && (ret =? 0)) then None else
+              match oget (os_tab o) i, evs with
+              | None, e1 :: rest =>
+                  let o1 := o_set o (os_strong o) (oput (os_tab o) i (mkO false (mkLis limit pause retry 0) LIdle 0 retry)) (Some i) in
+                  match o_event o1 e1 with
+                  | None => None
+                  | Some o2 =>
+                      if keep then match rest with [] => finish (Some o2) (negb (os_coro o)) | _ => None end
+                      else finish (o_events (o_set o2 0 (owe (os_lax o) LOwedC (os_tab o2)) (os_pend o2)) rest) (negb (os_coro o))
+                  end
+              | _, _ => None
+              end
           | OBad => None
           end
       end
@@ -536,11 +623,11 @@ Fixpoint o_run (o : ost) (ops : list op) (obs : list (list Z)) : option ost :=
   | _, _ => None
   end.
 
-Definition ost0 (coro vd lax : bool) : ost := mkOst coro vd lax 1 [] None 0.
+Definition ost0 (coro vd lax : bool) : ost := mkOst coro vd lax 1 [] None 0 0.
 
 (* closed trace: if the state is gone at the end and nothing is pending, nothing may be left over *)
 Definition sg_oracle (coro vd lax : bool) (ops obs : list (list Z)) : bool :=
-  match o_run (ost0 coro vd lax) (map decode ops) obs with
+  match o_run (ost0 coro vd lax) (decode_all ops) obs with
   | None => false
   | Some o =>
       if Nat.eqb (os_strong o) 0 && none_owed false (os_tab o)
